@@ -281,7 +281,20 @@ func (i *interpreter) urlString(fr *frame, p *value) value {
 		}
 		return strVal(s)
 	}
-	s := mkUF("u_url_string", SStr, f[0], f[1], f[2], f[3], f[4])
+	var s *Term
+	unchanged := org != nil && org.decl == nil
+	if unchanged {
+		for k := range f {
+			if f[k].String() != org.fields[k] {
+				unchanged = false
+			}
+		}
+	}
+	if unchanged {
+		s = mkUF("u_url_str", SStr, org.raw) // String() of an unmodified parse: a function of the raw text
+	} else {
+		s = mkUF("u_url_string", SStr, f[0], f[1], f[2], f[3], f[4])
+	}
 	// remember the scheme: IsRequestURL(String(u)) implies u.Scheme != ""
 	m.ghost["url:absstr:"+s.String()] = []value{f[0]}
 	return s
